@@ -23,6 +23,11 @@ pub enum Reg {
         reads: Vec<usize>,
         writes: Vec<usize>,
     },
+    /// a whole inner `Dispatcher` registered as a thread-local system of this builder (it is used
+    /// through its `RunNow` face: run_now = dispatch, setup, dispose)
+    TlDisp {
+        inner: Vec<Reg>,
+    },
     Batch {
         name: String,
         deps: Vec<String>,
@@ -147,6 +152,9 @@ pub struct SysInfo {
     pub reg_index: usize,
     /// its setup creates nothing
     pub expect: bool,
+    /// a dispatcher registered as a thread-local system: no harness code of its own, its
+    /// children are the systems of that inner dispatcher
+    pub container: bool,
 }
 
 #[derive(Clone, Copy, Debug, PartialEq, Eq)]
@@ -200,6 +208,7 @@ pub fn infos(regs: &[Reg]) -> Vec<SysInfo> {
                         multi: false,
                         reg_index,
                         expect: *expect,
+                        container: false,
                     });
                     reg_index += 1;
                     if !name.is_empty() {
@@ -227,7 +236,31 @@ pub fn infos(regs: &[Reg]) -> Vec<SysInfo> {
                         multi: false,
                         reg_index: usize::MAX,
                         expect: false,
+                        container: false,
                     });
+                }
+                Reg::TlDisp { inner } => {
+                    let sid = out.len();
+                    out.push(SysInfo {
+                        sid,
+                        parent,
+                        depth,
+                        kind: Kind::Tl,
+                        name: String::new(),
+                        deps: vec![],
+                        epoch,
+                        rmask: 0,
+                        wmask: 0,
+                        urmask: 0,
+                        uwmask: 0,
+                        hint: 0,
+                        times: 1,
+                        multi: false,
+                        reg_index: usize::MAX,
+                        expect: false,
+                        container: true,
+                    });
+                    walk(inner, Some(sid), depth + 1, out);
                 }
                 Reg::Batch { name, deps, ctl_read, ctl_write, times, multi, hint, inner } => {
                     let sid = out.len();
@@ -254,6 +287,7 @@ pub fn infos(regs: &[Reg]) -> Vec<SysInfo> {
                         multi: *multi,
                         reg_index,
                         expect: false,
+                        container: false,
                     });
                     reg_index += 1;
                     if !name.is_empty() {
@@ -539,6 +573,14 @@ fn gen_regs(rng: &mut Rng, cfg: &GenCfg, k: &Knobs, resmap: &[RKey], budget: &mu
             regs.insert(pos, Reg::Tl { reads: r, writes: w });
         }
     }
+    if cfg.allow_tl && !inner && depth == 0 && rng.chance(1, 12) {
+        // a dispatcher used as a thread-local system (no batches inside, a few systems)
+        let mut b2 = 1 + rng.below(4) as usize;
+        let c2 = GenCfg { allow_batch: false, ..cfg.clone() };
+        let innerv = gen_regs(rng, &c2, k, resmap, &mut b2, 1, true);
+        let pos = rng.below(regs.len() as u64 + 1) as usize;
+        regs.insert(pos, Reg::TlDisp { inner: innerv });
+    }
     if cfg.allow_barrier && rng.chance(k.barrier_p / 3 + 1, 100) {
         regs.push(Reg::Barrier); // trailing
     }
@@ -623,7 +665,7 @@ pub fn count_systems(regs: &[Reg]) -> usize {
     regs.iter()
         .map(|r| match r {
             Reg::Barrier => 0,
-            Reg::Batch { inner, .. } => 1 + count_systems(inner),
+            Reg::Batch { inner, .. } | Reg::TlDisp { inner } => 1 + count_systems(inner),
             _ => 1,
         })
         .sum()
